@@ -369,6 +369,22 @@ PLANS = {
 }
 
 
+def regression_cases(pid):
+    """witnesses of repaired defects that the generated cases of the quick bound do not contain (findings/*.json whose
+    property is this one): a repaired defect must be reported again if it ever returns"""
+    out = []
+    for f in sorted((common.VERIF / "findings").glob("D*.json")):
+        try:
+            r = json.loads(f.read_text())
+        except ValueError:
+            continue
+        if r.get("property") == pid and r.get("kind", "dyn") == "dyn" and isinstance(r.get("case"), dict) and "want" in r["case"]:
+            c = dict(r["case"], id=f"regression-{f.stem}", src="regression")
+            c["rel"] = {"kind": "none", "has_base": False}
+            out.append(c)
+    return out
+
+
 def summarize(rec):
     net = rec["net"]
     return {"id": rec["id"], "src": rec.get("src"), "point": rec.get("point"),
@@ -424,7 +440,7 @@ def run(pid: str, tier: str, plan=None, extra_cases=None) -> dict:
         base = base + derived
     if plan.get("traj"):
         base = base + trajectory_cases(cases + rnd, tier, rng)
-    allc = base + list(extra_cases or [])
+    allc = base + list(extra_cases or []) + regression_cases(pid)
     recs = dynpipe.execute(allc)
     byid = {r["id"]: r for r in recs}
     for r in recs:  # related networks carry the next states the base network produced
